@@ -5,6 +5,7 @@ import gen_c17_csrc as CS
 import gen_c17_cfg as CFG
 import gen_c17_cgen as CG
 import gen_c17_decl as DCL
+import gen_c17_cpp as CPP
 import gen_c17_inl as INL
 
 MIX_OPT_CLASSES = True
@@ -305,7 +306,13 @@ class Scen:
         n = self.name()
         extra = []
         q = rng.random()
-        if q < 0.14:
+        if rng.random() < 0.16:
+            # a generated preprocessor-heavy unit: function-like macros with 0 / 1 / n / variadic parameters called with
+            # no, empty, white-space and nested arguments, #undef / redefinition, conditional groups, #include, # and ##
+            # (the blocks c2mir's preprocessor owns per macro, per macro call and per argument; tools/gen_c17_cpp.py)
+            tag, src, need = CPP.cpp_unit(rng)
+            kind = 'c:cpp'
+        elif q < 0.14:
             # a generated unit of declaration histories: identifiers declared again and again (incomplete then complete
             # array types, tentative definitions, extern / static / definition in every order, tags completed later,
             # typedef repeats, block-scope externs: every branch of c2mir's def_symbol; tools/gen_c17_decl.py)
@@ -663,6 +670,12 @@ def fixed_scenarios():
                 x = nm()
                 L.append('c2m u%s.c %s' % (x, hexs(DCL.c_redecl_unit(_r.Random(4000 + 10 * len(out) + j))[1].replace('@N@', x))))
                 fs.append('f' + x)
+            # preprocessor-heavy units (tools/gen_c17_cpp.py)
+            for j in range(2):
+                x = nm()
+                tag, src, need = CPP.cpp_unit(_r.Random(6000 + 10 * len(out) + j))
+                L.append('c2mo u%s.c %s %s' % (x, need or '-', hexs(src.replace('@N@', x))))
+                fs.append('f' + x)
             L += ['api 900 1', 'output', 'write', 'read' if False else 'fwrite', 'load', 'gen_init', 'opt %d' % lvl,
                   'link ' + iface]
             fs.append('apif900')
@@ -696,6 +709,23 @@ def fixed_scenarios():
         L += tail + [('interp %s %d' if 'link interp' in tail else 'call %s %d') % (f, a) for f in fs for a in (2, 7, 40)]
         L += (['gen_finish'] if 'gen_init' in tail else []) + ['finish']
         out.append((['0 ' + l for l in L], dict(ctxs=1, kinds=['fixed-inline-exhaustive'])))
+    # the preprocessor grid: every call shape of a parameterless macro / of an empty single argument at file scope, in
+    # functions, as macro arguments and in #if expressions, every family of tools/gen_c17_cpp.py twice; then 8 generated
+    # units, one per family pair, each compiled in a c2mir session of its own (c2mir_init .. c2mir_finish)
+    L = ['init'] + ['file %s %s' % (hn, hexs(CS.HEADERS[hn])) for hn in sorted(CS.HEADERS)] + ['c2m_init']
+    fs = []
+    x = nm()
+    L.append('c2mo u%s.c I %s' % (x, hexs(CPP.exhaustive_cpp_unit()[1].replace('@N@', x))))
+    fs.append('f' + x)
+    L.append('c2m_finish')
+    import random as _r
+    for j, fam in enumerate(CPP.FAMILIES):
+        x = nm()
+        tag, src, need = CPP.cpp_unit(_r.Random(7000 + j), size=4, families=[fam, CPP.FAMILIES[(j + 1) % len(CPP.FAMILIES)], 'fn0'])
+        L += ['c2m_init', 'c2mo u%s.c %s %s' % (x, need or '-', hexs(src.replace('@N@', x))), 'c2m_finish']
+        fs.append('f' + x)
+    L += ['load', 'link interp'] + ['interp %s 7' % f for f in fs] + ['finish']
+    out.append((['0 ' + l for l in L], dict(ctxs=1, kinds=['fixed-cpp-exhaustive'])))
     # binary round trip into a second context
     x = nm()
     L = ['0 init', '0 scan ' + hexs(MIR_POOL[1].replace('@N@', x)), '0 api 901 2', '0 write', '1 init', '1 take 0',
